@@ -108,6 +108,17 @@ structure FatWrote (fs : FsState) (d d' : Dev) (o : Nat) (bs : List Nat) : Prop 
   frame : ∀ q, (q < (fatSliceOf fs).beginOff ∨
       (fatSliceOf fs).beginOff + (fatSliceOf fs).mirrors * (fatSliceOf fs).size ≤ q) →
     d'.img.getByte q = d.img.getByte q
+  /-- … and inside the FAT copies only the windows `[o, o + |bs|)` of the copies change -/
+  fine : ∀ q, (∀ i, i < (fatSliceOf fs).mirrors →
+      ¬ ((fatSliceOf fs).beginOff + o + i * (fatSliceOf fs).size ≤ q ∧
+         q < (fatSliceOf fs).beginOff + o + i * (fatSliceOf fs).size + bs.length)) →
+    d'.img.getByte q = d.img.getByte q
+
+/-- `q` lies in the byte window of the FAT entry of cluster `c` in one of the FAT copies -/
+def FatEntryPos (fs : FsState) (c q : Nat) : Prop :=
+  ∃ i, i < (fatSliceOf fs).mirrors ∧
+    (fatSliceOf fs).beginOff + entOff fs.fatType c + i * (fatSliceOf fs).size ≤ q ∧
+    q < (fatSliceOf fs).beginOff + entOff fs.fatType c + i * (fatSliceOf fs).size + entWidth fs.fatType
 
 /-- `write_all` on the FAT slice of a non-empty buffer that fits the slice -/
 theorem run_fat_writeAll (fs : FsState) (s : DiskSlice) (hs : IsFatSlice fs s) (bs : List Nat) (hne : 0 < bs.length)
@@ -143,7 +154,7 @@ theorem run_fat_writeAll (fs : FsState) (s : DiskSlice) (hs : IsFatSlice fs s) (
     simp only [hmin]
     rw [if_neg (by omega), List.take_length, run_bind_ok h1]
     rfl
-  refine ⟨d1, ?_, hs1, hfs1, ?_, ?_⟩
+  refine ⟨d1, ?_, hs1, hfs1, ?_, ?_, ?_⟩
   · unfold writeAll
     rw [hk]
     unfold writeAllLoop
@@ -179,5 +190,12 @@ theorem run_fat_writeAll (fs : FsState) (s : DiskSlice) (hs : IsFatSlice fs s) (
     rw [hb] at h3 h4
     rw [hsz] at this h3 h4 hfit
     omega
+
+  · intro q hq
+    apply hfr1
+    intro i' _ h2 h34
+    rw [hm] at h2
+    rw [hb, hsz] at h34
+    exact hq i' (by omega) h34
 
 end FatVerif.FileSim
